@@ -48,6 +48,7 @@ Arguments lc_fit {F}. Arguments lc_offsets {F}. Arguments lc_scales {F}. Argumen
 Arguments lc_X2 {F}. Arguments lc_Y2 {F}.
 
 Record whiten_case := mkWh {
+  wc_lay : layout;
   wc_p : N;
   wc_X : list (list float);
   wc_mean : list float;
@@ -278,6 +279,16 @@ Definition oracle_whiten (c : whiten_case) : N :=
   (flag (wshape_ok p X mu W && cov_ok p d Y) 128
    + flag (mean_ok p d X mu && affine_ok d mu W X Y && affine_ok d mu W (q (wc_X2 c)) (q (wc_Y2 c))) 256)%N.
 
+(** * Whitener::fit, the modelled glue: the published mean must be the model's mean bit for bit (the whitening
+      matrix depends on the decompositions, which are outside the model, and is certified by [whiten_ok]) *)
+Definition no_decomps : decomps float :=
+  mkDecomps (fun _ => ([], [])) (fun _ => ([], [])) (fun _ => []).
+Definition corr_whiten (c : whiten_case) : N :=
+  match whiten_fit B64_ops (wc_lay c) 0x1.5798ee2308c3ap-27%float no_decomps WCholesky (N.to_nat (wc_p c)) (wc_X c) with
+  | Some (mu, _) => flag (list_eqb f64_biteq mu (wc_mean c)) 256
+  | None => 256%N
+  end.
+
 (** * Self-test of the fused multiply-add *)
 Definition fma64_ok (t : float * float * float * float) : bool :=
   let '(a, b, c, r) := t in f64_biteq (fma64 a b c) r.
@@ -305,7 +316,7 @@ Definition run_case (c : case) : verdict :=
     | Norm64 k X Y => (corr_norm I64 k X Y, oracle_norm I64 k X Y)
     | Norm32 k X Y => let X' := mmap b32_of_bits X in let Y' := mmap b32_of_bits Y in
                       (corr_norm I32 k X' Y', oracle_norm I32 k X' Y')
-    | Whiten w => (0%N, oracle_whiten w)
+    | Whiten w => (corr_whiten w, oracle_whiten w)
     | Fma64 l => (flag (forallb fma64_ok l) 128, 0%N)
     | Fma32 l => (flag (forallb fma32_ok l) 128, 0%N)
     | MetaOnly => (0%N, 0%N)
